@@ -21,7 +21,7 @@ from vlib import zlit, zlist, blit, coq_opt, coq_list
 LEVEL = 'proof'
 _REPLAY = []      # case objects of --replay, run first like the corpus
 IMPORTS = ['SV.C11.Base', 'SV.C11.Utf8', 'SV.C11.Gen_events', 'SV.C11.Envelope', 'SV.C11.Tick',
-           'SV.C11.Notify', 'SV.C11.Routing', 'SV.C11.Capture', 'SV.C11.Listeners', 'SV.C11.Corr']
+           'SV.C11.Notify', 'SV.C11.Routing', 'SV.C11.Capture', 'SV.C11.Listeners', 'SV.C11.Register', 'SV.C11.Corr']
 HEADER_KEYS = [b'ver', b'server', b'serial', b'pool', b'poolserial', b'eventname', b'len']
 
 # docs/events.rst, written down independently of events.py: concrete class -> event name
@@ -624,7 +624,7 @@ def _run(chk, wd, proved):
             add_ticks(int(obj.get('ticks_per_second', 1)), [int(r) for r in obj['readings_in_ticks']])
             chk.dist('corpus:ticks')
     bases = [0, 3, 4, 58, 59, 3598, 3599, 7195, -3, 1700000000 - 1700000000 % 3600 - 2]
-    deltas = [-3601, -61, -6, -1, 0, 1, 4, 5, 6, 61, 3601] if quick else [-7200, -3601, -3600, -61, -60, -6, -5, -1, 0, 1, 4, 5, 6, 55, 60, 61, 3600, 3601, 7201]
+    deltas = [-3601, -61, -6, -1, 0, 1, 5, 61, 3601] if quick else [-7200, -3601, -3600, -61, -60, -6, -5, -1, 0, 1, 4, 5, 6, 55, 60, 61, 3600, 3601, 7201]
     depth = 3
     n_exh = 0
     for b in bases:
@@ -1339,6 +1339,130 @@ def _run(chk, wd, proved):
             return rng.choices(options, weights=w)[0]
         o2, ws, wb = listener_script(n, choose, rng.randrange(6, 22))
         run_listeners(n, o2, ws, wb)
+
+    # ---------------- O. event types registered at run time (events.register), before and after the first envelope
+    rg_c, rg_m = part('register', 'list xop * list (option bytes)', 'check_register')
+    reg_histories = [
+        [('raise_builtin',), ('register', 'FOO', 1), ('raise_ext', 1)],
+        [('register', 'FOO', 1), ('raise_ext', 1), ('raise_builtin',)],
+        [('raise_builtin',), ('register', 'FOO', 1), ('raise_ext', 1), ('register', 'BAR_2', 2), ('raise_ext', 2), ('raise_ext', 1),
+         ('raise_builtin',)],
+        [('raise_ext', 1), ('register', 'FOO', 1), ('raise_ext', 1)],
+        [('register', 'FOO', 1), ('register', 'BAR_2', 2), ('raise_ext', 2), ('raise_ext', 1)],
+    ]
+    for _ in range(15 if quick else 300):
+        h = []
+        for _ in range(rng.randrange(2, 8)):
+            k = rng.random()
+            if k < 0.3:
+                h.append(('raise_builtin',))
+            elif k < 0.6:
+                kk = rng.choice([1, 2, 3])
+                h.append(('register', ['FOO', 'BAR_2', 'PLUGIN_X'][kk - 1], kk))
+            else:
+                h.append(('raise_ext', rng.choice([1, 2, 3])))
+        reg_histories.append(h)
+    for h in reg_histories:
+        res = I.run_register_history(h)
+        registered = {}
+        xops, answers = [], []
+        ri = 0
+        for op in h:
+            if op[0] == 'register':
+                registered[op[2]] = op[1]
+                xops.append('(XRegister %s (Ext %d))' % (blist(op[1].encode('ascii')), op[2]))
+                continue
+            data, exc = res[ri]
+            ri += 1
+            hd = parse_header_bytes(data) if data is not None else None
+            en = None if hd is None else dict(hd[0]).get(b'eventname')
+            if op[0] == 'raise_builtin':
+                want, xc = b'TICK_5', '(Builtin Tick5Event)'
+            else:
+                want, xc = registered.get(op[1], 'None').encode('ascii'), '(Ext %d)' % op[1]
+            xops.append('(XLookup %s)' % xc)
+            answers.append(en)
+            chk.dist('register:' + op[0])
+            if en != want:
+                chk.violation({'kind': 'eventname is not the name the event type is registered under', 'history': [list(o) for o in h],
+                               'raised': list(op), 'eventname_in_header': None if en is None else en.decode('latin-1'),
+                               'expected': want.decode('ascii'), 'exception': exc})
+        rg_c.append('(%s, %s)' % (coq_list(xops), coq_list('None' if (a is None or a == b'None') else '(Some %s)' % blist(a) for a in answers)))
+        rg_m.append([list(o) for o in h])
+    if hasattr(events.EventTypes, 'FOO'):
+        chk.violation({'kind': 'check-machinery: a run-time registration was not undone'}, nofail=True)
+
+    # ---------------- P. several capture sections in one run (same data twice, an empty section in between)
+    bl_c, bl_m = part('blocks', 'Z * list (list bytes) * list bytes', 'check_blocks')
+    filler = b'ordinary output between two sections\n'
+    block_sets = []
+    for capmax in (64, 46):
+        d1, d2 = body(capmax - 6, 1), body(capmax, 2)
+        block_sets += [(capmax, [[d1], [d2]]), (capmax, [[d1], [d1]]), (capmax, [[d2], [], [d1]]),
+                       (capmax, [splits(body(capmax + 1, 3), 2), [d1]]), (capmax, [[d1], [], [], splits(d2, 2), [d1]])]
+    for capmax, blocks in block_sets:
+        for channel in ('stdout', 'stderr'):
+            reads = []
+            for chunks in blocks:
+                if chunks:
+                    reads += [BEGIN + chunks[0]] + list(chunks[1:]) + [END + filler]
+                else:
+                    reads += [BEGIN + END + filler]
+            res = I.run_capture(capmax, reads, channel=channel)
+            carried = []
+            for cn, evdata, serial, ps, stream in res:
+                hd = parse_header_bytes(stream)
+                carried.append(None if hd is None else hd[1].partition(b'\n')[2])
+            want = [b''.join(chunks) for chunks in blocks]
+            chk.dist('blocks:%d-sections' % len(blocks))
+            distinct.add(('blocks', len(blocks), tuple(None if c is None else len(c) for c in carried)))
+            ok = len(carried) == len(want) and all(c is not None and w.endswith(c) and len(c) <= capmax and (len(w) > capmax or c == w)
+                                                   for c, w in zip(carried, want))
+            if not ok:
+                chk.violation({'kind': 'PROCESS_COMMUNICATION notifications of one run are not one-to-one with its BEGIN..END sections '
+                                       '(each carrying that section\'s data only)',
+                               'capture_maxbytes': capmax, 'channel': channel, 'reads': [list(r) for r in reads],
+                               'sections': [list(w) for w in want],
+                               'carried': [None if c is None else list(c) for c in carried]})
+            bl_c.append('(%s, %s, %s)' % (zlit(capmax), coq_list(coq_list(blist(c) for c in chunks) for chunks in blocks),
+                                          coq_list(blist(c or b'') for c in carried)))
+            bl_m.append({'capture_maxbytes': capmax, 'channel': channel, 'sections': [[list(c) for c in chunks] for chunks in blocks]})
+
+    # ---------------- Q. output held back at reap time, flushed by the real Subprocess.finish
+    fl_c, fl_m = part('flush', 'proc * list (evclass * bytes) * (Z * bool * bool * Z) * list (evclass * option text)', 'check_flush')
+    held_choices = [(b'last words\n', b''), (b'', b'oops'), (b'bye', b'err <!--XSUP'), (b'x<!--', b''), (b'', b'')]
+    for st in (PSC.RUNNING, PSC.STARTING, PSC.STOPPING, PSC.BACKOFF):
+        for killing in (False, True):
+            for (ho, he) in held_choices:
+                for (laststart, startsecs, now) in ((100.0, 1, 200.0), (199.0, 10, 200.0)):
+                    sts = rng.choice([0, 256, 9])
+                    grp = rng.choice(['grp', None])
+                    pid = rng.choice([777, 31999])
+                    raised, before, evs, st_after, pid_after = I.run_finish_flush(st, pid, ho, he, sts, killing=killing, laststart=laststart,
+                                                                                  startsecs=startsecs, now=now, gname=grp)
+                    es = decode_wait_status(sts)[0]
+                    tq = too_quickly(st, laststart, startsecs, now)
+                    ee = es in (0,)
+                    held = [(cn, d) for cn, d in (('ProcessLogStdoutEvent', ho), ('ProcessLogStderrEvent', he)) if d]
+                    replay = {'state': st, 'pid': pid, 'killing': killing, 'held_back_stdout': list(ho), 'held_back_stderr': list(he),
+                              'wait_status': sts, 'laststart': laststart, 'startsecs': startsecs, 'now': now, 'group': grp,
+                              'notifications_during_finish': evs}
+                    chk.dist('flush:%s' % ('held' if held else 'nothing-held'))
+                    distinct.add(('flush', st, killing, raised, tuple(cn for cn, _ in evs)))
+                    # judge: the held-back output is announced first, with the child's pid, then the state change(s)
+                    logs = [(cn, pl) for cn, pl in evs if cn.startswith('ProcessLog')]
+                    first_state = [i for i, (cn, _) in enumerate(evs) if cn.startswith('ProcessState')]
+                    last_log = [i for i, (cn, _) in enumerate(evs) if cn.startswith('ProcessLog')]
+                    want_logs = [(cn, 'processname:worker groupname:%s pid:%d channel:%s\n%s' % (
+                        grp or '', pid, 'stdout' if 'Stdout' in cn else 'stderr', d.decode('ascii'))) for cn, d in held]
+                    if before or logs != want_logs or (first_state and last_log and last_log[-1] > first_state[0]):
+                        chk.violation(dict(replay, kind='output held back at reap time is not announced once, with the pid of the child, '
+                                                        'before the state change of that reap', expected_log_notifications=want_logs))
+                    fl_c.append('((mkProc %s %s %s %s 0 0 %s None), %s, (%s, %s, %s, %s), %s)' % (
+                        tlit('worker'), ogroup(grp), zlit(st), zlit(pid), blit(killing),
+                        coq_list('(%s, %s)' % (cn, blist(d)) for cn, d in held), zlit(es), blit(tq), blit(ee), zlit(int(now)),
+                        rendered_term(evs)))
+                    fl_m.append(replay)
 
     # ---------------- compare everything inside Coq
     total = 0
